@@ -42,6 +42,26 @@ CLAIMED = {
             "TLC checks that the receive machine, shaped like DeserializeEncrypted, refuses every mutated packet (bit flips per region, truncations, re-keying, garbage, wrong direction, wrong parity, inconsistent declared lengths) unless it is a consistent re-sealing by the key holder, and never reaches a panic state (LengthGuardInverted alone does). The harness builds real packets from the specification's layout, applies each mutation class at seeded positions (every bit in thorough) and every declared length in the property's set, evaluates the five-check Accept on the actual bytes and requires DeserializeEncrypted to agree: error for refused, identical fields for accepted, never a panic.",
             "SHA-1/AES trusted; verdict for a flipped bit is computed (msg_key recomputation), not assumed; client-level behaviour on such packets belongs to the session-engine harness",
             "5 C04"),
+    "C09": ("model_checking",
+            "TLA+ spec (Client.tla) model-checked with TLC; TLC-simulated schedules replayed with real goroutines held at hook gates against the reference server; recorded traces validated by TLC (ClientTrace.tla)",
+            "TLC checks Client.tla (send path, response table, receive loop, conformant server, rotations; 2 callers exhaustively incl. liveness, 3 callers in thorough) for OwnResult / no stall; behaviours of the same module (caller start, release at the send gate, answers in any order and grouping) are replayed: callers are real goroutines parked at verif gates, the independent reference server answers object / Bool / Vector<int> / Vector<object> / rpc_error results plain, in containers and gzip-packed; plus seeded 8-goroutine runs. Every Call/Return and every frame the server saw is judged by TLC against the observable-level specification: the value returned must be the answer whose req_msg_id names a frame of the caller's own request, once, typed.",
+            "the reference server (harness/refsrv, independent TL/IGE/envelope/handshake) plays the specification's server; hook gates (tag verif) only steer schedules, verdicts come from what the server and the callers observed; a stall needs a recorded time-out with goroutine dump",
+            "5 C09"),
+    "C10": ("model_checking",
+            "TLA+ spec (Client.tla: WireIdsIncrease, SeqNoRules) model-checked with TLC; TLC-simulated interleavings replayed through hook gates; server's arrival-order log validated by TLC (ClientTrace.tla)",
+            "TLC checks that with id generation inside the send lock (and the +4 bump on a standing clock) wire ids strictly increase in write order and seq_no parity/monotonicity hold for every interleaving of callers and the loop's own acknowledgements, and that GenIdOutsideLock breaks it. The same interleavings (callers held right after taking their id, released in any order, acknowledgements racing with senders) are replayed on the real client; the reference server's log of (msg_id, seq_no, kind) in arrival order and the set of acknowledged content-related messages (plain and inside containers) are judged by TLC.",
+            "the reference server (harness/refsrv, independent TL/IGE/envelope/handshake) plays the specification's server; hook gates (tag verif) only steer schedules, verdicts come from what the server and the callers observed; a stall needs a recorded time-out with goroutine dump; arrival order at the server = write order (one TCP connection); whether an ack advances seq_no is left open",
+            "5 C10"),
+    "C11": ("model_checking",
+            "TLA+ spec (Client.tla with salt rotation, liveness under weak fairness) model-checked with TLC; rotation histories from TLC simulation and named regressions replayed against a salt-enforcing reference server; traces validated by TLC (ClientTrace.tla)",
+            "TLC checks AcceptedNeverResent, SaltPersisted, absence of loop stalls and <>AllDone / []<>reading for 2 callers with up to 2 rotations at any moment in fresh-key and resumed sessions; NotifyAllOnBadSalt and NotifyAll+StaleEntry each yield the stall the property text describes. Histories with rotations (TLC-simulated, the named regressions, seeded random with 3 rotations, rejection processed while the sender is still in the send section, announced salt) run on the real client against a server that enforces salts; TLC judges: every rejected request re-sent, no accepted request sent twice, every caller gets its own answer, the adopted salt reaches the store, nothing times out.",
+            "the reference server (harness/refsrv, independent TL/IGE/envelope/handshake) plays the specification's server; hook gates (tag verif) only steer schedules, verdicts come from what the server and the callers observed; a stall needs a recorded time-out with goroutine dump",
+            "5 C11"),
+    "C16": ("model_checking",
+            "TLA+ spec (Client.tla loop: NoStall*, LoopKeepsReading) model-checked with TLC; server-message histories over a 22-member alphabet replayed in child processes against the reference server; traces validated by TLC (ClientTrace.tla)",
+            "TLC checks that the receive loop never blocks on a hand-over nobody takes and always returns to reading. Histories over a 22-member server alphabet (every MTProto service constructor, API objects as updates, unknown / truncated / empty bodies, empty and nested containers, unsolicited and repeated results, bad_msg_notification, transport error code, garbage and short frames) - singly with and without warning channel + handler, in seeded pairs, and with orderly close at message boundaries - are played to the real client in a child process; TLC judges: process alive, probes complete, updates surfaced, reconnect without a new key exchange.",
+            "the reference server (harness/refsrv, independent TL/IGE/envelope/handshake) plays the specification's server; hook gates (tag verif) only steer schedules, verdicts come from what the server and the callers observed; a stall needs a recorded time-out with goroutine dump; the warning channel is drained by the harness",
+            "5 C16"),
 }
 
 NOT_YET = {}
